@@ -49,8 +49,21 @@ THEOREMS = [
     'AbacusVerif.Power.c06_isDeposit',
     'AbacusVerif.Power.cubic_of_nonneg',
     'AbacusVerif.Power.calc_power_symmetries_c06',
+    # Props/C13LinkC08.lean: the abstract Binning instantiated with the C08 model of bin_kmu
+    'AbacusVerif.Power.binKmuR_eq_binning',
+    'AbacusVerif.Power.nmode_particle_free_c08',
+    'AbacusVerif.Power.table_translation_invariant_c08',
+    'AbacusVerif.Power.calc_power_symmetries_c08',
+    'AbacusVerif.Power.thread_independent_c08',
+    'AbacusVerif.Power.dft3_conj_symm',
+    'AbacusVerif.Power.autoPower_conj_symm',
+    'AbacusVerif.Power.halfmesh_eq_fullmesh',
+    'AbacusVerif.Power.c08_wsum_full_mesh',
+    # Props/C13LinkAll.lean: C06 deposit + C08 binning, no hypothesis left
+    'AbacusVerif.Power.calc_power_symmetries_c06_c08',
 ]
-LEAN_MODULES = ['AbacusVerif.Props.C13', 'AbacusVerif.Props.C13Link']
+LEAN_MODULES = ['AbacusVerif.Props.C13', 'AbacusVerif.Props.C13Link', 'AbacusVerif.Props.C13LinkC08',
+                'AbacusVerif.Props.C13LinkAll']
 DRIVER = 'drv_c13'
 
 # ---- stated bounds -------------------------------------------------------------------------------
@@ -81,8 +94,10 @@ TRUSTED = [
     '(IsDeposit) of the general theorems, discharged in Props/C13Link.lean from the C06 theorems '
     '(deposit_superposition, roll_equivariant) for cubic meshes with n >= 2; the C06 model is tied to the code '
     'by the C06 check',
-    'the (k, mu) binning is a per-bin weighted mean over a particle-independent classification of the stored modes '
-    '(C08 model)',
+    'the (k, mu) binning: the abstract Binning of the general theorems is instantiated with the C08 model of bin_kmu '
+    '(Props/C13LinkC08.lean: half-mesh modes, Hermitian multiplicity, clsKmu on the squared edges); the real-valued '
+    'per-mode power is accumulated over the contribution lists of C08\'s model of the loops; C08\'s model is tied to '
+    'the code by the C08 check',
 ]
 ASSUMPTIONS = [
     'exact-arithmetic model over the complex numbers: the theorems say the estimator has the symmetries; the '
